@@ -134,6 +134,16 @@ def pred(item, c):
             rl, tl = tf.multilayer_stack_rt(sl, c['wavelength'], c['pol'], aoi=c['aoi'], ambient_index=c['ambient'])
             worst = max(worst, _rel(complex(r[idx]), complex(rl)), _rel(complex(t[idx]), complex(tl)))
         return worst <= TOL_BATCH, f'batched vs per-element loop: worst relative difference {worst!r}'
+    if item == 'batch_energy':
+        n, d = np.array(c['n']), np.array(c['d'])
+        st = np.stack([n, d], axis=1)
+        r, t = tf.multilayer_stack_rt(st, c['wavelength'], c['pol'], aoi=c['aoi'], ambient_index=c['ambient'])
+        worst, at = 0.0, None
+        for idx in np.ndindex(*n.shape[1:]):
+            e = abs(r[idx]) ** 2 + _tfac(c['ambient'], math.radians(c['aoi']), complex(n[(-1,) + idx])) * abs(t[idx]) ** 2
+            if abs(e - 1) > worst:
+                worst, at = abs(e - 1), idx
+        return worst <= TOL, f'batched lossless stack: worst |R + (n_e cos th_e / n_0 cos th_0) T - 1| = {worst!r} at element {at}'
     if item == 'defaults':
         lay = _aslayers(c['stack'])
         r0, t0 = tf.multilayer_stack_rt(lay, c['wavelength'], c['pol'])
@@ -520,6 +530,50 @@ def correspondence(ctx):
             case['d'] = np.minimum(d, 0.3).tolist()
         _check(ctx, 'batch', case, tag=f'shape{bs}/k{k}/{"normal" if aoi == 0 else "oblique"}/{"complex" if "k" in case else "real"}')
 
+    # ------------------------------------------------ the index maps of the batch plumbing: model ravel / unravel / bsize vs NumPy
+    rshapes = [tuple(s_) for s_ in shapes] + [(4, 1), (1, 1, 3), (2, 2, 2, 2), (7,), (3, 1, 2)]
+    rcases = []
+    for i in range(ctx.scale(60, 2000) * widen):
+        shp = rshapes[i % len(rshapes)] if i % 3 else tuple(int(x) for x in rng.integers(1, 6, size=int(rng.integers(1, 5))))
+        idx = tuple(int(rng.integers(0, m)) for m in shp)
+        rcases.append((shp, idx))
+    rrep = C.lean_driver('C17', [' '.join(['ravel', str(len(shp))] + [str(x) for x in shp + idx]) for shp, idx in rcases])
+    for (shp, idx), line in zip(rcases, rrep):
+        case = {'shape': list(shp), 'idx': list(idx)}
+        ctx.case('batch_index_maps', case, nontrivial=(len(shp) > 1 and int(np.prod(shp)) > 1), tag=f'rank{len(shp)}')
+        want = [int(np.ravel_multi_index(idx, shp))] + [int(x) for x in np.unravel_index(int(np.ravel_multi_index(idx, shp)), shp)] + [int(np.prod(shp))]
+        try:
+            got = [int(x) for x in line.split()]
+        except ValueError:
+            got = line
+        if got != want:
+            ctx.disagree('batch_index_maps', case, want, got)
+        # the reshape the source performs, on a tagged array: element [b, j] of moveaxis(a.reshape((k, -1)), 1, 0) is a[j, *unravel(b)]
+        k = 2
+        a = np.arange(k * int(np.prod(shp))).reshape((k,) + shp)
+        fl = np.moveaxis(a.reshape((k, -1)), 1, 0)
+        if int(fl[want[0], 1]) != int(a[(1,) + idx]) or int(fl[:, 0].reshape(shp)[idx]) != int(a[(0,) + idx]):
+            ctx.disagree('batch_index_maps', case, 'numpy reshape/moveaxis differ from the C-order index map', got)
+
+    # ------------------------------------------------ batches in which SOME elements have an evanescent gap (mixed FTIR / propagating)
+    for i in range(ctx.scale(24, 900) * widen):
+        bs = [(4,), (2, 3), (3, 1, 2)][i % 3]
+        amb = round(float(rng.uniform(1.6, 2.4)), 3)
+        aoi = round(float(rng.uniform(35.0, 60.0)), 2)
+        sig = amb * math.sin(math.radians(aoi))
+        ngap = np.where(rng.random(bs) < 0.5, np.round(rng.uniform(1.0, max(1.01, 0.95 * sig), size=bs), 3),
+                        np.round(rng.uniform(1.05 * sig, 1.05 * sig + 1.5, size=bs), 3))
+        nfilm = np.round(rng.uniform(sig / 0.9, sig / 0.9 + 1.5, size=bs), 3)
+        nexit = np.round(rng.uniform(sig / 0.95, sig / 0.95 + 1.5, size=bs), 3)
+        wvl = round(float(rng.uniform(0.4, 2.0)), 3)
+        n = np.stack([nfilm, ngap, nexit])
+        d = np.stack([np.round(rng.uniform(0, 0.8, size=bs), 4), np.round(rng.uniform(0.02, 0.4, size=bs) * wvl, 4),
+                      np.round(rng.uniform(0, 1.0, size=bs), 4)])
+        case = {'n': n.tolist(), 'd': d.tolist(), 'wavelength': wvl, 'pol': 'sp'[i % 2], 'aoi': aoi, 'ambient': amb}
+        nev = int(np.sum(ngap < sig))
+        _check(ctx, 'batch', case, tag=f'shape{bs}/ftir-mixed/{"some" if 0 < nev < ngap.size else ("all" if nev else "none")}-evanescent')
+        _check(ctx, 'batch_energy', case, tag=f'shape{bs}/ftir-mixed')
+
     # ------------------------------------------------ the same stack in every container / dtype / layout / scalar type
     forms = ['int_list', 'mixed_list', 'tuple_of_tuples', 'list_of_lists', 'list_of_arrays', 'dtype:int64', 'dtype:int32', 'dtype:int16',
              'dtype:uint8', 'dtype:float32', 'dtype:float64', 'dtype:complex64', 'dtype:complex128', 'dtype:longdouble', 'fortran',
@@ -643,6 +697,12 @@ def _small_scope():
                     yield 'batch', {'n': np.round(n, 3).tolist(), 'd': np.round(d, 3).tolist(), 'wavelength': 0.6, 'pol': pol,
                                     'aoi': aoi, 'ambient': 1.0}
 
+    for bs in ((2,), (2, 2)):
+        n = np.stack([np.full(bs, 2.4), np.where(np.arange(int(np.prod(bs))).reshape(bs) % 2 == 0, 1.0, 2.0), np.full(bs, 1.9)])
+        d = np.stack([np.full(bs, 0.2), np.full(bs, 0.1), np.full(bs, 0.5)])
+        for pol in 'sp':
+            yield 'batch_energy', {'n': n.tolist(), 'd': d.tolist(), 'wavelength': 0.6, 'pol': pol, 'aoi': 50.0, 'ambient': 1.8}
+            yield 'batch', {'n': n.tolist(), 'd': d.tolist(), 'wavelength': 0.6, 'pol': pol, 'aoi': 50.0, 'ambient': 1.8}
 
 def search(ctx, hints):
     def bad(item, c):
@@ -727,7 +787,13 @@ MANIFEST_ENTRY = {
              'products (any depth), and between real media |r|^2 + (n_e cos th_e/n_0 cos th_0)|t|^2 <= 1, both polarisations. '
              'Also exercised on the real code: defaults omitted, degrees / deg flags, upper-case polarisation and rejection of an unknown one, '
              'config.precision = 32, fresnel_* on angle arrays and complex indices, layers up to 1000 um, angles to 0.1 % below critical and 89.9 deg. '
-             'CORRESPONDENCE ONLY: batched (1-D/N-D, real and absorbing) = per-element loop; independence of call history (the same caller-owned ndarray '
+             '(7) frustrated total internal reflection: with ANY subset of the lossless layers evanescent (cos th_j = i kappa, sin b = i sinh, cos b = cosh) between '
+             'propagating real media, |r|^2 + (n_e cos th_e/n_0 cos th_0)|t|^2 = 1, any depth, both polarisations (energy_conservation_ftir). (8) batched = per-element loop: the '
+             'reshape((nlayers,-1)) / moveaxis / [:, i] / reshape(stack.shape[2:]) plumbing is TRANSLATED as index maps (stack.batch) and PROVED, for every batch shape of every rank, to hand '
+             'each per-element computation exactly the stack found at that multi-index and to put its result back there (unravel_ravel, batched_eq_loop, batched_exit_medium); trusted there: NumPy '
+             'arithmetic / matmul act element-wise along the batch axis (exercised by the batch correspondence, incl. batches where only some elements have an evanescent gap, and by the '
+             'index-map correspondence ravel / unravel vs NumPy). '
+             'CORRESPONDENCE ONLY: element-wise action along the batch axis (batched 1-D/N-D, real and absorbing = per-element loop); independence of call history (the same caller-owned ndarray '
              'evaluated repeatedly - s/p/s, two wavelengths, batched then element views - equals calls on fresh copies and is left unchanged).'),
     'note': ('Trusted: Lean kernel + standard axioms; the ast->Lean translator for the arithmetic subset; NumPy matmul / '
              'broadcasting / complex arcsin, sin, cos; IEEE rounding (no theorem speaks about it). cos/sin of the angles and of beta, '
